@@ -597,7 +597,7 @@ func vfC07RunCase(t *testing.T, k *vfKit, sc *vfC07Script, stackBuf []byte, trac
 	idle := vfC07CheckTiming(k, w, ix, sc.Timeout, report)
 	k.Count("ev_events_logged", int64(len(w.evs)))
 	k.Count("snapshots_skipped_busy", int64(w.snapSkipped))
-	replies := 0
+	replies, sweptAtEnd := 0, 0
 	for _, e := range w.evs {
 		switch {
 		case e.Kind == "send" && e.Err == "" && e.No > 0:
@@ -610,6 +610,9 @@ func vfC07RunCase(t *testing.T, k *vfKit, sc *vfC07Script, stackBuf []byte, trac
 			k.Count("dials_failed", 1)
 		case e.Kind == "send" && e.Err == "too-large":
 			k.Count("sends_too_large", 1)
+		case e.Kind == "xclose" && e.Ph == 1 && e.Aux == 1:
+			k.Count("ev_closes_by_sweeper_during_final_cleanup", 1)
+			sweptAtEnd++
 		}
 	}
 	for o, n := range w.gateOutcome {
@@ -621,7 +624,7 @@ func vfC07RunCase(t *testing.T, k *vfKit, sc *vfC07Script, stackBuf []byte, trac
 		traces[tr] = true
 		k.Count("distinct_traces", 1)
 	}
-	if idle > 0 && replies > 0 {
+	if idle > 0 && replies > 0 || sweptAtEnd > 0 {
 		js, _ := json.Marshal(sc.Steps)
 		k.Nontrivial(fmt.Sprintf("%d/%s", sc.Timeout, js))
 	}
@@ -815,5 +818,69 @@ func TestVerifC07SlowDial(t *testing.T) {
 	}
 	if k.Counter("gate_lock-wait")+k.Counter("gate_closed") == 0 && k.ReplayCase() == "" {
 		k.Inconclusive("the sweeper never met an in-flight dial: neither a lock wait nor a close was observed")
+	}
+}
+
+// TestVerifC07EndSweep: the connection ends while a periodic sweep overlaps Run's final cleanup.
+// k sessions are idle for longer than the timeout but not swept yet (the sweep runs once per
+// second), m sessions are fresh; the IO ends a few ms before a sweep instant and the first Close
+// event of the final cleanup (fake eventLogger.Close, no lock held) sleeps across that instant, so
+// the sweeper's cleanup(true) runs in the middle of cleanup(false). Verdict: the end-of-connection
+// census (every socket closed exactly once, Count()==0, no goroutine left) plus the race detector.
+func TestVerifC07EndSweep(t *testing.T) {
+	k := vfNewKit(t, "C07", "udp-endsweep")
+	defer k.Finish()
+	stackBuf := make([]byte, 4<<20)
+	traces := map[string]bool{}
+	i := 0
+	reps := k.N(1, 8)
+	for rep := 0; rep < reps; rep++ {
+		for idle := 1; idle <= 8; idle++ {
+			for fresh := 1; fresh <= 8; fresh++ {
+				for _, variant := range []int{0, 1} {
+					i++
+					caseID := fmt.Sprintf("es-%d", i)
+					if rc := k.ReplayCase(); rc != "" && rc != caseID {
+						continue
+					}
+					r := k.Rand(caseID)
+					tm := []int64{300 * vfC07Ms, 500 * vfC07Ms, 100 * vfC07Ms}[r.Intn(3)]
+					sweep := int64(2+r.Intn(3)) * vfC07Sec
+					before := []int64{vfC07Ms, 5 * vfC07Ms, 12 * vfC07Ms}[r.Intn(3)] // the IO ends this long before the sweep
+					sc := &vfC07Script{CaseID: caseID, Timeout: tm, Roles: map[string]string{},
+						Plan: &vfC07Plan{NoDelays: true, EndCloseSleep: before + []int64{vfC07Ms, 10 * vfC07Ms, 40 * vfC07Ms}[r.Intn(3)]}}
+					g := &vfC07Gen{r: r, sc: sc, tm: tm}
+					for n := 0; n < idle+fresh; n++ {
+						sid := uint32(20000 + i*32 + n)
+						sc.Sids = append(sc.Sids, sid)
+						if n < idle {
+							// last activity in (sweep-1s-tm, sweep-tm): the previous sweep kept it, this one would expire it
+							sc.Roles[fmt.Sprint(sid)] = "idle, not swept yet"
+							l := sweep - tm - before - int64(1+r.Intn(int((vfC07Sec-before)/vfC07Ms)-2))*vfC07Ms
+							if l < 0 {
+								l = 0
+							}
+							g.msg(l, sid, 0, 40, "goes idle")
+							if variant == 1 && n%2 == 0 && l > 0 {
+								g.op(l+vfC07Ms, "reply", sid, 40, "")
+							}
+						} else {
+							sc.Roles[fmt.Sprint(sid)] = "fresh"
+							g.msg(sweep-before-int64(1+r.Intn(int(tm/vfC07Ms)-15))*vfC07Ms, sid, 0, 40, "fresh at the end")
+							if variant == 1 && n%2 == 0 {
+								g.frags(sid, 0, 200, []int64{sweep - before - vfC07Ms, -1}, "incomplete, fresh")
+							}
+						}
+					}
+					sc.EndAt = sweep - before
+					sc.Steps = append(sc.Steps, vfC07Step{At: sc.EndAt, Op: "snap"})
+					sort.SliceStable(sc.Steps, func(a, b int) bool { return sc.Steps[a].At < sc.Steps[b].At })
+					vfC07RunCase(t, k, sc, stackBuf, traces)
+				}
+			}
+		}
+	}
+	if k.Counter("ev_closes_by_sweeper_during_final_cleanup") == 0 && k.ReplayCase() == "" {
+		k.Inconclusive("no periodic sweep ever overlapped the final cleanup")
 	}
 }
